@@ -146,7 +146,7 @@ func init() {
 		ID:    "C12",
 		Level: "exploration",
 		Rule: "(a) every byte string of length <= 3 (quick) / <= 4 (thorough) over 22 YAML-significant bytes (incl. 0xFF) as a whole input file and spliced at three anchor points of a valid configuration; (b) 41 schema positions x 30 node shapes (null, bools, numbers, non-finite and overflowing numbers, strings, sequences, mappings with scalar / numeric / sequence keys, anchors and aliases, tags, timestamps, merge keys, block indicators) singly and (thorough: all; quick: every pair involving a composite shape in the first position) in pairs; " +
-			"(c) every glob pattern of length <= 3 (quick) / <= 4 (thorough) over {*, ?, [, ], \\, a, /, ., -, ^}; (d) all 64 presence combinations of the 6 flags; (e) complete digraphs K2..K5 (thorough K6) as service and as parameter dependency graphs; (f) nesting depth 2^k up to 4096 and names of 64 KiB; (g) every string of length <= 4 (quick) / <= 5 (thorough) over {(, ), \", a, +, [, ], ., comma, 1} as the argument text of env / envInt / todo chunks; (i) all 64 two-alias tables whose paths begin with aliases x 5 references; (j) input file names (non-ASCII, combining characters, invalid UTF-8, spaces, up to 240 bytes) x 3 contents x 3 ways of naming them; (h) all pairs and triples of the 11 semantic defects of C16 x 4 flag combinations. Oracle: returns, exit status 0 or 1, exit 0 => the output parses as Go, exit != 0 => no output written and (a third of the cases start with a long file at the output path) an existing file untouched; non-trivial = rejected or contains a non-alphanumeric byte; distinct = distinct input",
+			"(c) every glob pattern of length <= 3 (quick) / <= 4 (thorough) over {*, ?, [, ], \\, a, /, ., -, ^}; (d) all 64 presence combinations of the 6 flags; (e) complete digraphs K2..K5 (thorough K6) as service and as parameter dependency graphs; (e2) layered acyclic graphs of depth 8 / 20 / 40 with 2^depth paths (service arguments, fields + calls, tags, decorators, parameters) x root and leaf scopes; (k) configurations producing exactly n diagnostics for n around 1, 10, 100, 256, 1000 in four classes x {plain, --quiet, --stub}; (f) nesting depth 2^k up to 4096 and names of 64 KiB; (g) every string of length <= 4 (quick) / <= 5 (thorough) over {(, ), \", a, +, [, ], ., comma, 1} as the argument text of env / envInt / todo chunks; (i) all 64 two-alias tables whose paths begin with aliases x 5 references; (j) input file names (non-ASCII, combining characters, invalid UTF-8, spaces, up to 240 bytes) x 3 contents x 3 ways of naming them; (h) all pairs and triples of the 11 semantic defects of C16 x 4 flag combinations. Oracle: returns, exit status 0 or 1, exit 0 => the output parses as Go, exit != 0 => no output written and (a third of the cases start with a long file at the output path) an existing file untouched; non-trivial = rejected or contains a non-alphanumeric byte; distinct = distinct input",
 		Assumptions: []string{"a hang is one invocation exceeding the 60 s tool watchdog in the worker and in three isolated re-runs; cases slower than 20 s are listed as notes, never as violations", "printer write errors (closed stdout) are outside the input space"},
 		BudgetQuick: 280 * time.Second, BudgetThorough: 1700 * time.Second,
 		Run: func(w *W) {
@@ -318,6 +318,97 @@ func init() {
 							c.Distinct("all", id)
 							c.Distinct("nontrivial", id)
 							c12check(c, id, []File{{"c.yaml", cfg.YAML()}}, std, "aliases")
+						})
+					}
+				}
+			}
+			// (e2) layered acyclic graphs: two nodes per layer, each depending on both nodes of the next layer - no cycle,
+			// 2^depth paths; the root with each scope, the leaves with each scope (a scope violation is a legitimate answer)
+			for _, depth := range []int{8, 20, 40} {
+				for _, kind := range []string{"services", "params", "tags", "fields-and-calls", "decorators"} {
+					for _, scopes := range [][2]string{{"", ""}, {"shared", ""}, {"shared", "contextual"}, {"contextual", "shared"}, {"non_shared", "non_shared"}} {
+						depth, kind, scopes := depth, kind, scopes
+						if kind == "params" && scopes[0] != "" {
+							continue
+						}
+						id := fmt.Sprintf("layered/%s/depth%d/root=%s/leaves=%s", kind, depth, scopes[0], scopes[1])
+						w.Case(id, func(c *C) {
+							cfg := &Cfg{Meta: &Meta{Pkg: P("gen")}}
+							node := func(l int, x string) string { return fmt.Sprintf("n%02d%s", l, x) }
+							for l := 0; l < depth; l++ {
+								for _, x := range []string{"a", "b"} {
+									n1, n2 := node(l+1, "a"), node(l+1, "b")
+									switch kind {
+									case "params":
+										v := any("%" + n1 + "%-%" + n2 + "%")
+										if l == depth-1 {
+											v = l
+										}
+										cfg.Params = append(cfg.Params, Param{node(l, x), v})
+									default:
+										sv := Service{Name: node(l, x), Constructor: P("New")}
+										if l == 0 && scopes[0] != "" {
+											sv.Scope = P(scopes[0])
+										}
+										if l == depth-1 {
+											if scopes[1] != "" {
+												sv.Scope = P(scopes[1])
+											}
+										} else {
+											switch kind {
+											case "services":
+												sv.Args = []any{"@" + n1, "@" + n2}
+											case "tags":
+												sv.Args = []any{fmt.Sprintf("!tagged t%02d", l+1)}
+											case "fields-and-calls":
+												sv.Fields = []KV{{"F", "@" + n1}}
+												sv.Calls = []Call{{Method: "Set", Args: []any{"@" + n2}}}
+											case "decorators":
+												sv.Tags = []Tag{{Name: fmt.Sprintf("d%02d%s", l, x)}}
+												cfg.Decorators = append(cfg.Decorators, Decorator{Tag: fmt.Sprintf("d%02d%s", l, x), Decorator: "Dec", Args: []any{"@" + n1, "@" + n2}})
+											}
+										}
+										if kind == "tags" && l > 0 {
+											sv.Tags = append(sv.Tags, Tag{Name: fmt.Sprintf("t%02d", l)})
+										}
+										cfg.Services = append(cfg.Services, sv)
+									}
+								}
+							}
+							c.Distinct("all", id)
+							c.Distinct("nontrivial", id)
+							c12check(c, id, []File{{"c.yaml", cfg.YAML()}}, std, "layered")
+						})
+					}
+				}
+			}
+			// (k) how many diagnostics: 1 ... 1000 errors of one class (powers of ten and of two on either side)
+			for _, n := range []int{1, 2, 9, 10, 11, 99, 100, 101, 255, 256, 257, 999, 1000, 1001} {
+				for _, class := range []string{"missing-params", "invalid-getters", "unknown-functions", "mixed-output"} {
+					for _, flags := range [][]string{nil, {"--quiet"}, {"--stub"}} {
+						n, class, flags := n, class, flags
+						id := fmt.Sprintf("error-count/%s/%d/%v", class, n, flags)
+						w.Case(id, func(c *C) {
+							cfg := &Cfg{Meta: &Meta{Pkg: P("gen")}}
+							for i := 0; i < n; i++ {
+								switch class {
+								case "missing-params":
+									cfg.Params = append(cfg.Params, Param{fmt.Sprintf("p%04d", i), fmt.Sprintf("%%gone%04d%%", i)})
+								case "invalid-getters":
+									cfg.Services = append(cfg.Services, Service{Name: fmt.Sprintf("s%04d", i), Constructor: P("New"), Getter: P(fmt.Sprintf("%dx", i))})
+								case "unknown-functions":
+									cfg.Params = append(cfg.Params, Param{fmt.Sprintf("p%04d", i), fmt.Sprintf("%%nofn%d()%%", i)})
+								case "mixed-output":
+									if i%2 == 0 {
+										cfg.Params = append(cfg.Params, Param{fmt.Sprintf("p%04d", i), fmt.Sprintf("%%gone%04d%%", i)})
+									} else {
+										cfg.Services = append(cfg.Services, Service{Name: fmt.Sprintf("s%04d", i), Constructor: P("New"), Args: []any{fmt.Sprintf("@lost%04d", i)}})
+									}
+								}
+							}
+							c.Distinct("all", id)
+							c.Distinct("nontrivial", id)
+							c12check(c, id, []File{{"c.yaml", cfg.YAML()}}, append(append([]string{}, std...), flags...), "error-count")
 						})
 					}
 				}
